@@ -84,7 +84,7 @@ def c11(F, R, tier):
 
 @prop("C12",
       technique="static: symbolic evaluation of the extracted Exp printer on operator trees re-read by the extracted grammar/Pratt model; sign/abs pairing rule; float-rendering guard rule; generated-name templates vs grammar",
-      explanation="Decides (PRINT-PARSE) for the compiled-model printer Exp::to_string_with_precedence/Display/logic_operand_to_string over all parent/child operator pairs incl. abs/min/max blocks and all grandchild chains whose pairs pass; (SIGN-SPLIT) every printer that renders v.abs() chooses the sign with an exact test (a tolerant float_lt loses the sign of tiny negatives); (NUM-SPELL) every f64 rendered by Display for Exp / VariableType is guarded by an infinity test or spelled Infinity/MinusInfinity; (G-NAMES) every compiler-generated name template ($abs_n, $max_n_select_i, name__n, ...) instantiates to a string derivable from simple_variable/compound_variable with underscore_literal fragments; (OBJ-HEADER) the objective line written by Display for Objective and for LinearModel for each OptimizationType is a sentence of an alternative of the grammar rule `objective`; (T-DOMAIN-SPELL) Display for VariableType, evaluated on one representative of every class of bounds it can distinguish (-inf, negative, 0, positive, +inf), writes each infinite bound as the standard-library constant whose extracted value is that bound and the bare type name only for the default bounds; (NUM-FORMAT) as in C11, for the functions reachable from Display for Model and LinearModel. NOT decided: textual idempotence of the whole linear-model rendering; finiteness of linear-model numbers (that is C08).",
+      explanation="Decides (PRINT-PARSE) for the compiled-model printer Exp::to_string_with_precedence/Display/logic_operand_to_string over all parent/child operator pairs incl. abs/min/max blocks and all grandchild chains whose pairs pass; (SIGN-SPLIT) every printer that renders v.abs() chooses the sign with an exact test (a tolerant float_lt loses the sign of tiny negatives); (NUM-SPELL) every f64 rendered by Display for Exp / VariableType is guarded by an infinity test or spelled Infinity/MinusInfinity; (G-NAMES) every compiler-generated name template ($abs_n, $max_n_select_i, name__n, ...) instantiates to a string derivable from simple_variable/compound_variable with underscore_literal fragments; (OBJ-HEADER) the objective line written by Display for Objective and for LinearModel for each OptimizationType is a sentence of an alternative of the grammar rule `objective`; (T-DOMAIN-SPELL) Display for VariableType, evaluated on one representative of every class of bounds it can distinguish (-inf, negative, 0, positive, +inf), writes each infinite bound as the standard-library constant whose extracted value is that bound and the bare type name only for the default bounds; (NUM-FORMAT) as in C11, for the functions reachable from Display for Model and LinearModel. (LINEAR-ROUND-TRIP) a family of 79 LinearModel values (every coefficient class -- unit, negative, fractional, 1e-7, 1e9, zero -- at the first and at a later position, every right-hand side and relation, row-name form, offset, optimisation type, variable-name form incl. generated `$` and `__` names, every domain form, grouped declarations) is printed by the crate's Display impl evaluated from its HIR, matched by the model of pest's matcher, converted by the crate's own converters, and read back by a reference reader of plain affine text: optimisation type, objective coefficients and offset, every row's name, coefficients, relation and right-hand side and every variable's domain must be exactly those of the model. NOT decided: that the transformer and linearizer compile such plain affine text to that model (C01/C10); textual idempotence of the rendering after a full recompilation (auxiliary naming and row order belong to the compiler); finiteness of linear-model numbers (that is C08).",
       assumptions=["pest 2.9 Pratt semantics as read from its source", "Rust's default f64 Display prints non-finite values as inf/-inf/NaN"])
 def c12(F, R, tier):
     import c12 as mod
@@ -92,6 +92,8 @@ def c12(F, R, tier):
     mod.check(F, R, get_grammar())
     objhdr.check(F, R, get_grammar(), "C12")
     mod.num_format(F, R, ["<parser::model_transformer::model::Model as std::fmt::Display>::fmt", "<transformers::linear_model::LinearModel as std::fmt::Display>::fmt"])
+    import c12rt
+    c12rt.check(F, R, get_grammar(), tier)
 
 
 @prop("C15",
@@ -130,10 +132,12 @@ def c04(F, R, tier):
 
 @prop("C17",
       technique="static: writer tables extracted from the typed HIR of to_lp_format (sense, relation, section membership per VariableType, positional data-flow of bounds), sign/abs pairing, generated-name namespace rule",
-      explanation="Decides (T-SENSE) OptimizationType->Maximize/Minimize; (T-REL) Comparison-><=,>=,=; (T-SECTIONS) per VariableType: Boolean only under Binary, IntegerRange under General with a `min <= name <= max` bounds entry, reals with a bounds entry built by lp_bound in (min, name, max) order, `free` only under the (-inf,+inf) test, the entry omitted only for the default NonNegativeReal range; (NUM-SPELL) lp_bound spells +-infinity; (SIGN-SPLIT) every printed magnitude has its sign decided by an exact `< 0.0`; (NAME-NS) generated row labels are tested against user-written names. NOT decided: acceptance by an independent LP reader beyond these tables; finiteness of coefficients (C08).")
+      explanation="Decides (T-SENSE) OptimizationType->Maximize/Minimize; (T-REL) Comparison-><=,>=,=; (T-SECTIONS) per VariableType: Boolean only under Binary, IntegerRange under General with a `min <= name <= max` bounds entry, reals with a bounds entry built by lp_bound in (min, name, max) order, `free` only under the (-inf,+inf) test, the entry omitted only for the default NonNegativeReal range; (NUM-SPELL) lp_bound spells +-infinity; (SIGN-SPLIT) every printed magnitude has its sign decided by an exact `< 0.0`; (NAME-NS) generated row labels are tested against user-written names. (LP-ROUND-TRIP) to_lp_format, evaluated from its typed HIR on a family of 87 linear models (every coefficient class at the first and at a later position, right-hand sides, relations, named and unnamed rows incl. names that collide with generated labels, offsets, senses, every domain form for every name form), is read by an independent reference reader of the LP format written from the format's rules (default bounds 0 <= x < +inf, a bounds line overrides only the side it states, `free`, Binary/General); sense, objective and constant, every row and every variable's bounds and integrality must be the model's. NOT decided: acceptance by an independent LP reader beyond these tables; finiteness of coefficients (C08).")
 def c17(F, R, tier):
     import c17 as mod
     mod.check(F, R)
+    import c17rt
+    c17rt.check(F, R, get_grammar(), tier)
 
 
 @prop("C13",
